@@ -8,6 +8,7 @@ import KyupyVerif.Model.SimOps
 import KyupyVerif.Model.WaveCirc
 import KyupyVerif.Model.Capture
 import KyupyVerif.Model.MapCert
+import KyupyVerif.Model.LevelMem
 import KyupyVerif.Proofs.Solve
 import KyupyVerif.Proofs.GenOpsWO
 import KyupyVerif.Proofs.StripLink
@@ -238,6 +239,16 @@ def step (st : DState) (line : String) : DState × String :=
       -- rest = ops|starts|locs|caps|clen with , inside and / between ops
       match parseMapIn st.net strip capsMin rest with
       | some p => (st, match p.checkFast with | none => "ok" | some e => "FAIL " ++ e)
+      | none => (st, "bad")
+  | ["opsindep", strip, capsMin, rest] =>
+      -- footprint conditions of C07.level_threads_any_order / C06.level_any_thread_order_wave on the REAL tables
+      -- (theorem C07.level_conditions_of_certificate: implied by `mapok`), `oneLevelB` for every (level_starts[i], level_stops[i]),
+      -- number of levels with >= 2 scratch writers (where the former condition `opsIndepB` fails)
+      match parseMapIn st.net strip capsMin rest with
+      | some p =>
+          let stops := p.starts.drop 1 ++ [p.ops.length]
+          let lev := (p.starts.zip stops).all fun (a, b) => p.oneLevelB a b && decide (b ≤ p.ops.length)
+          (st, s!"indep={p.levelsIndepB} onelevel={lev} capsmin={decide (2 ≤ p.capsMin)} clash={p.scratchClashLevels}")
       | none => (st, "bad")
   | ["schedok", strip, capsMin, rest, sched] =>
       match parseMapIn st.net strip capsMin rest with
